@@ -248,3 +248,184 @@ def own_resolver_input(repo, tier="quick"):
                 obs.append(ob_ok(oid, fi, construct="base graph `%s` is read-only in %s and its callees" % (p, fq.split(":")[1]), instance=fq.split(".")[-1] + ":" + p,
                                  reason="the names on the caller's graph reach resolve() unchanged"))
     return obs
+
+
+# ---------------------------------------------------------------------------------------------------------------------
+# ORD.repetition-state (C05): every repetition of a multiplied branch is computed from the same state
+# ---------------------------------------------------------------------------------------------------------------------
+
+def _repetition_loops(fi):
+    """(repetition loop, recipe loop) pairs of read_cgsmiles: `for _ in range(.., int(<multiplier>) - 1)` directly around a loop
+    that calls _expand_branch."""
+    from .common import is_call, enclosing_loops
+    fl, cfg = fi.flow, fi.cfg
+    reps = []
+    for n in cfg.nodes:
+        if n.kind != "for":
+            continue
+        c = is_call(fl.canon(n.ast.iter, n.id), "range")
+        if not c or not c[0]:
+            continue
+        hi = c[0][-1] if len(c[0]) <= 2 else c[0][1]
+        if hi[0] == "binop" and hi[1] == "-" and hi[3] == ("const", 1) and is_call(hi[2], "int"):
+            inner = [m for m in cfg.nodes if m.kind in ("for", "while") and m.id != n.id and m.id in cfg.loops.get(n.id, set()) and
+                     enclosing_loops(fi, m.id) and enclosing_loops(fi, m.id)[0].id == n.id]
+            if inner:
+                reps.append((n, inner[0]))
+    return reps
+
+
+def ord_repetition_state(repo, tier="quick"):
+    """`[...]|n` stands for n copies of the same unit.  The copies are produced by a loop over the repetitions around a loop over
+    the recorded recipes; the only thing one repetition may hand to the next is the cursor (graph, running node number, node the
+    next copy hangs on).  Any other variable that feeds the arguments of _expand_branch and survives from one repetition into
+    the next makes copy k+1 differ from copy k (the unit is then not 'written out' n times)."""
+    from .da import loop_carried
+    oid = "ORD.repetition-state"
+    fi = repo.function("read_cgsmiles:read_cgsmiles")
+    fl, cfg = fi.flow, fi.cfg
+    reps = _repetition_loops(fi)
+    need(reps, "anchor vanished: no repetition loop `for _ in range(0, int(<multiplier>) - 1)` over the branch recipes in read_cgsmiles", fi)
+    obs = []
+    for rep, inner in reps:
+        body = cfg.loops.get(rep.id, set())
+        # the cursor: what _expand_branch hands back
+        cursor = set()
+        feeds = set()
+        calls = []
+        for m in cfg.nodes:
+            if m.id not in body or m.kind != "stmt":
+                continue
+            for sub in ast.walk(m.ast):
+                if isinstance(sub, ast.Call):
+                    t = repo.resolve_call(fi, sub)
+                    if t is not None and t.kind == "repo" and t.name.endswith(":_expand_branch"):
+                        calls.append((m, sub))
+        need(calls, "anchor vanished: the repetition loop of read_cgsmiles no longer calls _expand_branch", fi)
+        for m, call in calls:
+            if isinstance(m.ast, ast.Assign):
+                for t in m.ast.targets:
+                    cursor |= _names(t)
+            for a in list(call.args) + [k.value for k in call.keywords]:
+                feeds |= _names(a)
+        # names the arguments depend on inside the repetition body (flow-insensitive closure over the assignments of the body)
+        changed = True
+        while changed:
+            changed = False
+            for m in cfg.nodes:
+                if m.id not in body or m.kind != "stmt":
+                    continue
+                st = m.ast
+                if _assigned_names(st) & feeds:
+                    h = _header(st)
+                    new = (_names(h) if h is not None else set())
+                    # the guards of the assignment decide the value as well
+                    if not new <= feeds:
+                        feeds |= new
+                        changed = True
+        # the conditions under which feeding assignments run
+        for m in cfg.nodes:
+            if m.id in body and m.kind == "if":
+                arm = set()
+                for sub in ast.walk(m.ast):
+                    if isinstance(sub, ast.stmt) and sub is not m.ast:
+                        arm |= _assigned_names(sub)
+                if arm & feeds:
+                    feeds |= _names(m.ast.test)
+        # names that only ever hold a copy of a cursor variable inside the repetition (`base_anchor = prev_node`) are cursor state
+        grew = True
+        while grew:
+            grew = False
+            cand = {}
+            for m in cfg.nodes:
+                if m.id in body and m.kind == "stmt":
+                    for v in _assigned_names(m.ast):
+                        plain = isinstance(m.ast, ast.Assign) and len(m.ast.targets) == 1 and isinstance(m.ast.targets[0], ast.Name) and \
+                            isinstance(m.ast.value, ast.Name) and m.ast.value.id in cursor
+                        cand[v] = cand.get(v, True) and plain
+            for v, ok in cand.items():
+                if ok and v not in cursor:
+                    cursor.add(v)
+                    grew = True
+        carried = loop_carried(fi, rep)
+        extra = sorted((carried & feeds) - cursor - set(fi.params))
+        # a name that is only formally carried: assigned on every path from the head of the repetition to each of its reads
+        if extra:
+            for v in extra:
+                obs.append(ob_fail(oid, fi, rep.ast, construct="`%s` survives from one repetition into the next and feeds _expand_branch" % v, instance="per-repetition:" + v,
+                                   reason="copy k+1 of a multiplied branch is built with state left over from copy k; apart from the cursor (%s) nothing may be "
+                                          "carried: the copies are not the same unit written out n times" % ", ".join(sorted(cursor))))
+        else:
+            obs.append(ob_ok(oid, fi, rep.ast, construct="only the cursor (%s) is handed from one repetition to the next" % ", ".join(sorted(cursor)), instance="per-repetition",
+                             reason="every copy of a multiplied branch is produced from the same recipes and the same per-repetition state"))
+    return obs
+
+
+# ---------------------------------------------------------------------------------------------------------------------
+# PROV.rdkit-source (C18): the graph is read off the molecule that was handed in
+# ---------------------------------------------------------------------------------------------------------------------
+
+_RDKIT_CHANGING = ("AddHs", "RemoveHs", "RemoveAllHs", "MergeQueryHs", "Kekulize", "SanitizeMol", "SetAromaticity", "AssignRadicals", "KekulizeIfPossible",
+                   "AdjustQueryProperties", "Cleanup", "Normalize", "Uncharge", "Neutralize")
+_RDKIT_COPY = ("Mol", "RWMol", "deepcopy", "copy")
+
+
+def prov_rdkit_source(repo, tier="quick"):
+    """rdkit_to_networkx has to describe the molecule it is given: the atoms, bonds and hydrogen counts are read from that
+    molecule, not from a derivative with hydrogens made explicit, bonds kekulised or charges normalised (each of those changes
+    hydrogen counts, bond orders or the number of atoms on the way back from RDKit)."""
+    oid = "PROV.rdkit-source"
+    fi = repo.function("rdkit:rdkit_to_networkx")
+    fl = fi.flow
+    need(fi.positional_params, "anchor vanished: rdkit_to_networkx has no parameter", fi)
+    root = ("param", fi.positional_params[0])
+    obs = []
+    readers = []
+    for call, nid in fl.calls():
+        f = call.func
+        if isinstance(f, ast.Attribute) and f.attr in ("GetAtoms", "GetBonds"):
+            readers.append((call, nid))
+        # in-place changes of the argument
+        nm = _ext(repo, fi, call) or ""
+        last = nm.split(".")[-1]
+        if nm.startswith("rdkit") and last in _RDKIT_CHANGING and call.args and fl.canon(call.args[0], nid) == root and \
+                not (isinstance(getattr(fi.cfg.nodes[nid], "ast", None), ast.Assign)):
+            obs.append(ob_fail(oid, fi, call, construct="%s(<the argument>) in place" % last, instance="in-place:" + last,
+                               reason="the caller's molecule is rewritten before it is read: hydrogen counts / bond orders of the graph are those of the rewritten molecule"))
+    need(readers, "anchor vanished: rdkit_to_networkx no longer iterates GetAtoms() / GetBonds()", fi)
+    for call, nid in readers:
+        rec = fl.canon(call.func.value, nid)
+        what = call.func.attr
+        if rec == root:
+            obs.append(ob_ok(oid, fi, call, construct="%s() of the argument" % what, instance=what, reason="read off the molecule that was handed in"))
+            continue
+        cands = [rec]
+        if rec[0] == "var":
+            cands = [fl.canon(d.value, d.node) if d.kind == "assign" and not d.path and d.value is not None else ("param", d.var) if d.kind == "param" else None
+                     for d in [fl.defs[i] for i in rec[2]]]
+        verdicts = []
+        for c in cands:
+            if c == root:
+                verdicts.append("ok")
+            elif c is not None and c[0] == "call":
+                nm = c[2][1] if c[2][0] == "ext" else (c[2][2] if c[2][0] == "attr" else "")
+                last = str(nm).split(".")[-1]
+                if last in _RDKIT_CHANGING:
+                    verdicts.append("bad:" + last)
+                elif last in _RDKIT_COPY and c[3] and c[3][0] == root:
+                    verdicts.append("ok")
+                else:
+                    verdicts.append("?")
+            else:
+                verdicts.append("?")
+        bad = [v for v in verdicts if v.startswith("bad:")]
+        if bad:
+            obs.append(ob_fail(oid, fi, call, construct="%s() of %s(<the argument>)" % (what, bad[0][4:]), instance=what,
+                               reason="the graph is read off a derivative of the molecule: with %s the atoms, hydrogen counts or bond orders are no longer those "
+                                      "of the molecule that was handed in (a round trip does not give the graph back)" % bad[0][4:]))
+        elif all(v == "ok" for v in verdicts):
+            obs.append(ob_ok(oid, fi, call, construct="%s() of the argument (or a plain copy)" % what, instance=what, reason="read off the molecule that was handed in"))
+        else:
+            obs.append(ob_undecided(oid, fi, call, construct="%s() of %s" % (what, ast.unparse(call.func.value)), instance=what,
+                                    reason="the molecule that is read is neither the argument nor a known derivative of it"))
+    return obs
